@@ -622,3 +622,22 @@ func init() {
 		return Val{K: KTuple, F: []Val{fv, {K: KIfc, S: e}}}
 	}
 }
+
+// strings.Index / strings.LastIndexAny / strings.IndexAny: -1, or a position at which the match
+// fits (what the match is, is not modelled).
+func init() {
+	externs["strings.Index"] = func(c *FnCtx, st *State, call *ast.CallExpr, recv *Val, args []Val) Val {
+		r := c.fresh("idx", "Int")
+		c.assume(st, sAnd(sx("<=", "-1", r), sx("<=", sx("+", r, sx("slen", args[1].S)), sx("slen", args[0].S))))
+		return Val{K: KInt, S: r, T: types.Typ[types.Int]}
+	}
+	pureExterns["strings.Index"] = true
+	for _, name := range []string{"strings.LastIndexAny", "strings.IndexAny", "strings.LastIndex", "strings.LastIndexByte"} {
+		externs[name] = func(c *FnCtx, st *State, call *ast.CallExpr, recv *Val, args []Val) Val {
+			r := c.fresh("idx", "Int")
+			c.assume(st, sAnd(sx("<=", "-1", r), sx("<", r, sx("slen", args[0].S))))
+			return Val{K: KInt, S: r, T: types.Typ[types.Int]}
+		}
+		pureExterns[name] = true
+	}
+}
